@@ -47,6 +47,11 @@ def check_mps(psi, what):
         require(mv == 0, what + ': MPS tensor entry violates the additive quantum number rule', site=i, max_entry=mv)
     for i in range(L - 1):
         require(psi.A[i].shape[2] == psi.A[i + 1].shape[1], what + ': neighbouring tensors disagree on the bond dimension', bond=i + 1)
+    # the object's own accessors report these dimensions
+    require(psi.nsites == L, what + ': nsites differs from the number of tensors', got=psi.nsites, want=L)
+    if L > 0:
+        want = [psi.A[0].shape[1]] + [a.shape[2] for a in psi.A]
+        require(list(psi.bond_dims) == want, what + ': bond_dims differs from the tensor dimensions', got=list(psi.bond_dims), want=want)
 
 
 def check_mpo(op, what):
@@ -60,6 +65,10 @@ def check_mpo(op, what):
                 lens=[len(op.qD[i]), len(op.qD[i + 1])])
         mv = mpo_mask_violation(a, np.asarray(op.qd), np.asarray(op.qD[i]), np.asarray(op.qD[i + 1]))
         require(mv == 0, what + ': MPO tensor entry violates the additive quantum number rule', site=i, max_entry=mv)
+    require(op.nsites == L, what + ': nsites differs from the number of tensors', got=op.nsites, want=L)
+    if L > 0:
+        want = [op.A[0].shape[2]] + [a.shape[3] for a in op.A]
+        require(list(op.bond_dims) == want, what + ': bond_dims differs from the tensor dimensions', got=list(op.bond_dims), want=want)
 
 
 def mps_norm_info(psi):
@@ -293,6 +302,7 @@ def run_history(case, rec, mode):
             else:
                 ret = a.zero_qnumbers()
                 require(ret is a, 'zero_qnumbers does not return the object itself')
+                require(not np.any(a.qd) and not any(np.any(q) for q in a.qD), 'zero_qnumbers left a non-zero quantum number')
             if kind != 'zero_q' and nz:
                 require(np.array_equal(a.qD[0], qf) and np.array_equal(a.qD[-1], ql),
                         kind + ': leading / trailing bond quantum numbers of a non-zero state changed',
@@ -310,6 +320,7 @@ def run_history(case, rec, mode):
                 o.orthonormalize(mode=['left', 'right'][step[2] % 2])
             else:
                 o.zero_qnumbers()
+                require(not np.any(o.qd) and not any(np.any(q) for q in o.qD), 'zero_qnumbers left a non-zero quantum number (MPO)')
             w.note(o, kind)
         elif kind == 'split':
             a = pick_mps(step[1])
